@@ -134,8 +134,8 @@ func (r RouteSpec) config() (rc router.RouteConfig, err error) {
 		}
 		rc.ToPorts = append(rc.ToPorts, uint16(p))
 	}
-	rc.FromPortRanges = mapStr(r.FromRanges, PortItem.String)
-	rc.ToPortRanges = mapStr(r.ToRanges, PortItem.String)
+	rc.FromPortRanges = r.fromRangeString()
+	rc.ToPortRanges = r.toRangeString()
 	for _, s := range r.FromPrefixes {
 		rc.FromPrefixes = append(rc.FromPrefixes, netip.MustParsePrefix(s))
 	}
@@ -229,10 +229,20 @@ func buildImpl(c Case, poolDir string) (*implRouter, string, any) {
 		}
 		resolvers := make([]dns.SimpleResolver, 0, len(c.Resolvers))
 		resolverMap := map[string]dns.SimpleResolver{}
+		// one object per resolver name: the slice and the map share it (as service.Config.Manager does); the map may
+		// have names the slice lacks and vice versa (the router API allows it)
+		objs := map[string]*fakeResolver{}
+		obj := func(n string) *fakeResolver {
+			if objs[n] == nil {
+				objs[n] = &fakeResolver{name: n, table: c.Resolve[n]}
+			}
+			return objs[n]
+		}
 		for _, n := range c.Resolvers {
-			fr := &fakeResolver{name: n, table: c.Resolve[n]}
-			resolvers = append(resolvers, fr)
-			resolverMap[n] = fr
+			resolvers = append(resolvers, obj(n))
+		}
+		for _, n := range c.resolverMapNames() {
+			resolverMap[n] = obj(n)
 		}
 		tcp := map[string]netio.StreamClient{}
 		for _, n := range c.TCPClients {
